@@ -213,6 +213,7 @@ func (s *Scanner) checkNewLine(ch rune) rune {
 }
 
 func (s *Scanner) Scan() (Token, error) {
+Retry: // a comment is skipped by starting over, not by a call of Scan for every comment
 	for unicode.IsSpace(s.peek()) {
 		s.next()
 	}
@@ -344,10 +345,10 @@ func (s *Scanner) Scan() (Token, error) {
 		token = EXTERNAL_COMMAND
 	case s.isCommentRune(ch):
 		s.scanComment()
-		return s.Scan()
+		goto Retry
 	case s.isLineCommentRune(ch):
 		s.scanLineComment()
-		return s.Scan()
+		goto Retry
 	default:
 		if ch == '\'' || (!s.ansiQuotes && ch == '"') {
 			err = s.scanString(ch)
